@@ -118,6 +118,41 @@ theorem nodup_dedup (l : List Gene) : (dedup l).Nodup := by
     simp only [dedup, List.nodup_cons, List.mem_filter]
     exact ⟨by simp, ih.filter _⟩
 
+theorem dedup_nodup (l : List Gene) (h : l.Nodup) : dedup l = l := by
+  induction l with
+  | nil => rfl
+  | cons x l ih =>
+    obtain ⟨hx, hl⟩ := List.nodup_cons.1 h
+    simp only [dedup, ih hl]
+    congr 1
+    rw [List.filter_eq_self]
+    intro y hy
+    have : y ≠ x := fun e => hx (by rw [← e]; exact hy)
+    simpa using this
+
+/-- de-duplicating two duplicate-free runs: the first, then what is new in the second -/
+theorem dedup_append_nodup (A B : List Gene) (hA : A.Nodup) (hB : B.Nodup) :
+    dedup (A ++ B) = A ++ B.filter (fun x => !A.contains x) := by
+  induction A with
+  | nil =>
+    simp only [List.nil_append, dedup_nodup B hB, List.contains_nil, Bool.not_false]
+    exact (List.filter_eq_self.2 (fun _ _ => rfl)).symm
+  | cons x A ih =>
+    obtain ⟨hx, hA'⟩ := List.nodup_cons.1 hA
+    simp only [List.cons_append, dedup, ih hA', List.filter_append, List.filter_filter]
+    congr 1
+    congr 1
+    · rw [List.filter_eq_self]
+      intro y hy
+      have : y ≠ x := fun e => hx (by rw [← e]; exact hy)
+      simpa using this
+    · apply List.filter_congr
+      intro y _
+      by_cases hy : y = x
+      · subst hy; simp
+      · have : x ≠ y := fun e => hy e.symm
+        simp [hy, this]
+
 /-- collecting part after part with "skip what is already there" is de-duplicating the concatenation -/
 theorem foldl_extendNew (F : Part → List Gene) (ps : List Part) (acc : List Gene) :
     ps.foldl (fun acc p => extendNew acc (F p)) acc
